@@ -194,6 +194,8 @@ func checkC19(c *Ctx, r *Result, tier string) {
 	c19Registry(c, r)
 	c19Wrap(c, r)
 	c19TrailingError(c, r)
+	c19PluginUnderRecover(c, r)
+	c19VariadicArity(c, r)
 }
 
 // recoverCovers: fn registers, before any call, a deferred closure that recovers and assigns the named error result.
